@@ -215,6 +215,78 @@ fn mention_queries() -> Vec<Value> {
     out
 }
 
+/// a plugin of the user's ahead of grid search that turns one query into several (its `fan_out` list): some of them carry a
+/// grid section and some do not, so the working list of the plugin chain holds expanded and unexpanded queries side by side
+struct FanOut {}
+impl InputPlugin for FanOut {
+    fn process(&self, input: &mut Value) -> Result<(), routee_compass::plugin::input::InputPluginError> {
+        if let Some(list) = input.get("fan_out").cloned() {
+            *input = list;
+        }
+        Ok(())
+    }
+}
+
+fn fan_out_members() -> Vec<Value> {
+    vec![
+        json!({"origin_vertex": 0, "label": "plain"}),
+        json!({"origin_vertex": 1, "grid_search": {"alpha": [1, 2]}}),
+        json!({"origin_vertex": 2, "grid_search": {"alpha": [{"m0": "a"}, {"m0": "b"}], "beta": ["x", "y"]}}),
+        json!({"origin_vertex": 3, "grid_search": {"gamma": [7, 8, 9]}, "tag": {"keep": 1}}),
+    ]
+}
+
+/// every list of 1-3 members (with repetition, tagged so that equal members stay distinct queries) behind the fan-out plugin
+fn check_fan_out(st: &mut Stats) -> u64 {
+    let members = fan_out_members();
+    let mut lists: Vec<Vec<usize>> = vec![];
+    for a in 0..members.len() {
+        lists.push(vec![a]);
+        for b in 0..members.len() {
+            lists.push(vec![a, b]);
+            for c in 0..members.len() {
+                lists.push(vec![a, b, c]);
+            }
+        }
+    }
+    let plugins: Vec<Arc<dyn InputPlugin>> = vec![Arc::new(FanOut {}), Arc::new(GridSearchPlugin {})];
+    for l in lists.iter() {
+        st.states += 1;
+        st.evaluations += 1;
+        st.transitions += 1;
+        st.traces += 1;
+        st.nontrivial += 1;
+        let list: Vec<Value> = l
+            .iter()
+            .enumerate()
+            .map(|(i, m)| {
+                let mut q = members[*m].clone();
+                q["position"] = json!(i);
+                q
+            })
+            .collect();
+        let query = json!({"fan_out": list});
+        let mut want_c: Vec<String> = list.iter().flat_map(|q| reference(q)).map(|q| canon(&q)).collect();
+        want_c.sort();
+        let case = || json!({"fan_out_query": query});
+        let comp = "grid_search.behind_a_fan_out_plugin";
+        match guarded(|| apply_input_plugins(&query, &plugins).map_err(|e| e.to_string())) {
+            Err(p) => st.violation(comp, "no_panic", l.len() as u64, || p.clone(), case),
+            Ok(Err(e)) => st.violation(comp, "expands_without_error", l.len() as u64, || e.clone(), case),
+            Ok(Ok(got)) => {
+                let mut got_c: Vec<String> = got.iter().map(canon).collect();
+                got_c.sort();
+                if got_c == want_c {
+                    st.pass("multiset_equals_cartesian_product");
+                } else {
+                    st.violation(comp, "multiset_equals_cartesian_product", l.len() as u64, || format!("{} queries, expected {}: got {:?}", got_c.len(), want_c.len(), got_c.iter().take(4).collect::<Vec<_>>()), case);
+                }
+            }
+        }
+    }
+    lists.len() as u64
+}
+
 const KINDS: usize = 5;
 const NAMES: [&str; 3] = ["alpha", "beta", "gamma"];
 
@@ -323,6 +395,8 @@ pub fn run(tier: Tier) -> i32 {
         check_query(&q, &mut st, true);
     }
     st.notes.insert(format!("{} queries whose grid options carry or mention the name of the grid section", mention_cases));
+    let n_fan = check_fan_out(&mut st);
+    st.notes.insert(format!("{} lists of 1-3 queries with and without a grid section produced by a plugin ahead of grid search", n_fan));
     st.sample(4, || json!({"grid_search": {"alpha": [0, "v0_1"], "beta": [{"m1": "o0"}]}, "origin_vertex": 0}));
     finish(
         &info,
@@ -362,6 +436,15 @@ pub fn replay(case: &Value) -> i32 {
                 std::process::exit(1);
             }
         };
+    }
+    if case.get("fan_out_query").is_some() {
+        let mut st = Stats::new();
+        check_fan_out(&mut st);
+        for (k, g) in st.violations.iter() {
+            println!("REPLAY-VIOLATION {} {}", k, g.detail);
+        }
+        println!("replay: all lists behind the fan-out plugin re-run, {} violated clauses", st.violations.len());
+        return if st.violations.is_empty() { 0 } else { 1 };
     }
     let q = case["query"].clone();
     let mut st = Stats::new();
